@@ -79,6 +79,17 @@ def judge(ctx, spec, sx, q, expected, bodies):
     if [v if isinstance(v, str) else float(v) for v in vals] != [v if isinstance(v, str) else float(v) for v in want_vals]:
         ctx.oracle_fail("the data response carries other values than the constrained source", case, vals[:30], want_vals[:30], size=size)
         return "values-differ"
+    # the announced length of the data response is its length (the header is absent for sequences and strings)
+    clen = bodies["dods"].get("clen")
+    if clen is not None and int(clen) != len(bodies["dods"]["body"]):
+        ctx.oracle_fail("the Content-Length of the data response differs from the length of its body", case, int(clen),
+                        len(bodies["dods"]["body"]), size=size)
+        return "content-length"
+    want_clen = not any(e[0] == "sq" for e in expected) and "String" not in repr(want_decl)
+    if want_clen != (clen is not None):
+        ctx.oracle_fail("the data response %s a Content-Length" % ("lacks" if want_clen else "announces"), case, clen,
+                        "a header exactly when the dataset holds neither a sequence nor strings", size=size)
+        return "content-length-presence"
     # ASCII: every value, in order, with its index tuple
     if not arest.startswith("-" * 45 + "\n"):
         ctx.oracle_fail("no separator line after the ASCII declaration", case, arest[:60], "45 dashes", size=size)
@@ -105,6 +116,7 @@ def explore(ctx, tier, search=False):
     if search:
         n_ds = 200
     cases = []
+    clen_cases = []
     for di in range(n_ds):
         spec = G.gen_dataset(rng)
         sx = G.ds_sexp(spec)
@@ -140,6 +152,11 @@ def explore(ctx, tier, search=False):
             for ext in ("dds", "dods", "ascii", "das"):
                 cases.append(("h-handle %s %s %s" % (sx, G.hx("/d." + ext), G.hx(q)), c15.canon_impl(bodies[ext]),
                               {"dataset": sx, "query": q, "ext": ext}))
+            r_ = bodies["dods"]
+            clen_cases.append(("h-clen %s %s %s" % (sx, G.hx("/d.dods"), G.hx(q)),
+                               "n/a" if r_["exc"] or r_["status"] != 200 else (r_["clen"] or "none"),
+                               {"dataset": sx, "query": q, "ext": "dods"}))
+            ctx.tags["content-length=%s" % ("announced" if r_.get("clen") else "absent")] += 1
             # DAS independence, on the dataset that has attributes; also for a query that does not parse
             for qq in (q, rng.choice(["a[x]", "zz", "a[1:2:3:4]", "dap4.ce=a", "s&s.i>>1", "foo(", q + "]"])):
                 d = G.run_request(app_attr, "/d.das", qq)
@@ -149,6 +166,7 @@ def explore(ctx, tier, search=False):
                                     (das_plain["body"] or b"")[:200].decode("ascii", "replace"), size=len(qq))
                 ctx.count(("das", sx, qq), True, tag="das-independence")
     ctx.correspond("the four bodies of BaseHandler for one query", cases)
+    ctx.correspond("Content-Length of the data response (calculate_size) vs contentLength", clen_cases)
 
 
 def run(ctx):
